@@ -931,6 +931,7 @@ static void ExpandMacro(PMacroRec OneMacro) {
 
             else if (z1 > OneMacro->ParamCount) {
                 AddStringListLast(&(Tag->Params), ArgStr[z1].str.p_str);
+                Tag->ParCnt++;
             }
         }
 
